@@ -139,15 +139,21 @@ def tree_tokens(t):
     return [t[0]] + tree_tokens(t[1]) + tree_tokens(t[2])
 
 
-def machine_run(cmds, stacks, max_steps):
+def machine_run(cmds, stacks, max_steps, stdin=""):
     """Reference interpreter (language definition) for programs that touch no I/O stack.
     cmds: list of (type, h, d, tree); stacks: dict idx -> list of Fraction|None. Returns the replay driver's text."""
     st = {k: list(v) for k, v in stacks.items()}
     cur, loc, steps = 3, 0, 0
     points, latest = {}, None
+    lines = stdin.split("\n")
+    lines.reverse()
 
     def pop(i):
         s_ = st.setdefault(i, [])
+        if i == 0 and not s_:
+            line = lines.pop() if lines else ""
+            for ch in reversed(line):
+                s_.append(Fraction(ord(ch)))
         return s_.pop() if s_ else None
 
     def push(i, v):
@@ -219,6 +225,8 @@ def machine_run(cmds, stacks, max_steps):
     out = "loc=%d cur=%d" % (loc, cur)
     for i in sorted(st):
         if st[i]:
+            if any(v is not None and (abs(v.numerator) >> 512 or v.denominator >> 512) for v in st[i]):
+                return None     # astronomically large values: skipped (slow to replay, nothing new)
             out += " |%d=" % i + " ".join(show_num(v) for v in st[i])
     return out
 
@@ -230,20 +238,25 @@ def cases_for(op, seed):
         H2, H3, H13, N = ("H", 2), ("H", 3), ("H", 13), ("N",)
         trees = [N, N, N, H2, H3, H13, ("Q", H2, N), ("E", H3, H2), ("Q", N, ("E", H2, N)), ("E", ("Q", H13, H3), N)]
         vals = [Fraction(0), Fraction(1), Fraction(2), Fraction(-3), Fraction(1, 2), Fraction(-5, 3), Fraction(6), None]
-        for _ in range(400):
+        for it in range(600):
+            use_stdin = it >= 400
             n = rnd.randint(1, 6)
             cmds = []
             for _ in range(n):
                 ty = rnd.randint(0, 5)
                 h = rnd.randint(1, 3)
-                d = rnd.randint(0, 4) if ty == 0 else rnd.randint(3, 5)
+                d = rnd.randint(0, 4) if ty == 0 else (rnd.choice([0, 0, 3, 4]) if use_stdin else rnd.randint(3, 5))
                 cmds.append((ty, h, d, rnd.choice(trees)))
-            stacks = {i: [rnd.choice(vals[:-1])] + [rnd.choice(vals) for _ in range(rnd.randint(0, 3))] for i in (3, 4, 5) if rnd.random() < 0.8}
-            exp = machine_run(cmds, stacks, 25)
+            idxs = (0, 3, 4) if use_stdin else (3, 4, 5)
+            stacks = {i: [rnd.choice(vals[:-1])] + [rnd.choice(vals) for _ in range(rnd.randint(0, 3))] for i in idxs if rnd.random() < 0.7}
+            stdin = rnd.choice(["", "A", "AB\\nC", "x\\n\\nyz"]) if use_stdin else ""
+            exp = machine_run(cmds, stacks, 12, stdin.replace("\\n", "\n"))
+            if exp is None:
+                continue
             prog = ";".join("%d,%d,%d,%s" % (ty, h, d, " ".join(tree_tokens(t))) for ty, h, d, t in cmds)
             init = "|".join("%d=%s" % (i, " ".join(enc_num(v) for v in vs_)) for i, vs_ in stacks.items())
-            yield ("exec.steps\t%s\t%s\t25" % (prog, init), exp,
-                   {"op": "execute_one x<=25", "commands(type,syllables,dots,area)": prog,
+            yield ("exec.steps\t%s\t%s\t12\t%s" % (prog, init, stdin), exp,
+                   {"op": "execute_one x<=12", "commands(type,syllables,dots,area)": prog, "stdin": stdin,
                     "initial stacks": {str(i): [show_num(v) for v in vs_] for i, vs_ in stacks.items()}})
         return
     if op == "big.roundtrip" or op == "big.to_base":
@@ -398,6 +411,7 @@ OPS = {
     "calc": ["area.calc"], "Area::new": ["area.calc"],
     "execute_one": ["exec.steps"], "calc_on_state": ["exec.steps", "area.calc"], "push_stack_wrap": ["exec.steps"],
     "pop_stack_wrap": ["exec.steps"], "State::push_stack": ["exec.steps"], "State::pop_stack": ["exec.steps"],
+    "trait_State::push_stack": ["exec.steps"], "trait_State::pop_stack": ["exec.steps"], "ext_num_to_unicode": [],
     "BigNum::to_string_base": ["big.to_base", "big.roundtrip"], "BigNum::from_string_base": ["big.from_base", "big.roundtrip"],
     "BigNum::from_string": ["big.from_base"], "Num::from_string": ["num.roundtrip"],
 }
